@@ -19,6 +19,12 @@ def _env_setup():
     import warnings
 
     warnings.simplefilter("ignore")
+    try:  # Twisted reports Deferreds garbage-collected with an unhandled Failure: not part of any claim
+        from twisted.logger import globalLogBeginner
+
+        globalLogBeginner.beginLoggingTo([lambda e: None], redirectStandardIO=False, discardBuffer=True)
+    except Exception:
+        pass
 
 
 def _run_job(args):
